@@ -29,6 +29,30 @@ add('C01', 'netsim', 'exploration',
     'payloads after the run for aliasing.  Evidence over the explored runs, '
     'not a proof.', TRUST, 'DESIGN.md section 6 C01')
 
+add('C04', 'netsim', 'exploration',
+    'deterministic simulation: one injected protocol violation per run at a '
+    'seeded position + exhaustive sweep of all 65536 two-byte frame headers',
+    'Each run plays a valid prefix, exactly one violating frame of a seeded '
+    'class (18 classes), and marker-carrying trailing frames through the real '
+    'receive path under seeded segmentation, also while the client is '
+    'closing; the oracle knows the index of the violating frame by '
+    'construction and checks events and the decoded client wire.  The header '
+    'sweep is a complete enumeration of the 2-byte header space against an '
+    'independent classifier; everything else is sampled.', TRUST,
+    'DESIGN.md section 6 C04')
+
+add('C07', 'netsim', 'exploration',
+    'deterministic simulation: bounded enumeration of server-step x '
+    'application-reaction x single-fault sequences, seeded long histories, '
+    'event-order automaton + termination budget',
+    'All sequences of <= 3 server steps over a 17-token alphabet x 8 '
+    'application tables x 12 faults are enumerated in the thorough tier '
+    '(stratified sample in quick and for lengths 4-5); random histories of up '
+    'to 200 steps with multi-fault plans go beyond the bound.  The automaton '
+    'also runs as a monitor inside every other check.  Liveness is bounded: '
+    'a run that exhausts its poll/event budget is reported as a hang.', TRUST,
+    'DESIGN.md section 6 C07')
+
 ORDER = ['C01', 'C02', 'C03', 'C04', 'C05', 'C06', 'C07', 'C08', 'C09', 'C10',
          'C11', 'C12', 'C13', 'C14', 'C15', 'C16', 'C17', 'C18', 'C19']
 
